@@ -1,0 +1,21 @@
+//go:build verif
+// +build verif
+
+package hc
+
+// Accessors used only by the external verification harness (build tag "verif").
+// They add no behaviour: without the tag this file is not compiled.
+
+// VerifPort returns the TCP port the started transport listens on ("" until Start has created the server).
+func (t *ipTransport) VerifPort() string {
+	s := t.server
+	if s == nil {
+		return ""
+	}
+	return s.Port()
+}
+
+// VerifTxtRecords returns the mDNS TXT records the transport currently advertises.
+func (t *ipTransport) VerifTxtRecords() map[string]string {
+	return t.config.txtRecords()
+}
